@@ -117,6 +117,22 @@ def run(ck):
             for i, st in stores:
                 ck.verdict(bool(ok_e) and T.reachable_only_via(g, i, ok_e), "4", "T3-must-precede", g, "store:%s/after-success-of:Poll::%s" % (place_str(st["pl"]).split(".")[-1], callee), "the field is recorded only on the success edge of the poller call", "Generic records %s before/without the poller call having succeeded (a failed registration would later delete a foreign registration or accept events)" % place_str(st["pl"]).split(".")[-1], site=g.where(i))
 
+    ir = ck.opt_body("<LoopInner as IoLoopInner>::register")
+    if ir is None:
+        ck.anchor_missing("4", "T3-must-precede", "<LoopInner as IoLoopInner>::register")
+    else:
+        pc = [cs for cs in T.calls(ir, name="register") if cs.f["path"].startswith("sys::Poll::")]
+        stores = [(i, st) for i, j, st in T.stores_to_field(ir, "is_registered") if st["rv"]["r"] == "use" and st["rv"]["o"].get("k", {}).get("v") == 1]
+        ck.floor("4", "IoLoopInner::register: poller call + is_registered store", len(pc) + len(stores), 2)
+        for p in pc:
+            ok_e, err_e, direct = T.result_split(ir, p.bb)
+            for i, st in stores:
+                ck.verdict(bool(ok_e) and T.reachable_only_via(ir, i, ok_e), "4", "T3-must-precede", ir, "store:is_registered/after-success-of:Poll::register", "the adapter records its registration only on the success edge of the poller call", "the Async adapter marks itself registered before/without Poll::register having succeeded: when adapt_io is rejected (fd already registered by another source) the failure path unregisters that other source's fd", site=ir.where(i))
+    # slots are never physically removed from the list (a popped slot would be re-created at generation 0)
+    from props import C01
+
+    C01.slots_never_removed(ck, "1")
+
     # ---- clause 5: the batch loop exits only by exhaustion ----------------------------------------------------
     dl = DispatchLoop(ck, "5")
     b = dl.body
